@@ -16,11 +16,26 @@ for prop in C14 C19 C13 C11; do
     ( $bin -prop $prop -seed 4242 -maxruns $n -gate $2 -lock $3 -procs $4 -hashes $T/$prop-$i.bin -dir $T -samples 0 -enumlimit 20 -plancap 60 "${extra[@]}" > $T/$prop-$i.json 2>$T/$prop-$i.err || echo "worker failed: $prop $cfg" ) &
   done
   wait
-  ref=$T/$prop-1.bin
-  for f in $T/$prop-*.bin; do
-    if cmp -s $ref $f; then :; else echo "DIVERGENCE $prop: $(basename $f) differs from $(basename $ref)"; fail=1; fi
-  done
+  res=$(python3 - $T/$prop-*.bin <<'PY'
+import sys,struct
+maps=[]
+for f in sys.argv[1:]:
+    b=open(f,'rb').read(); m={}
+    for i in range(0,len(b)-16,17):
+        idx,h=struct.unpack_from('<QQ',b,i); m[idx]=h
+    maps.append(m)
+allidx=set().union(*[set(m) for m in maps])
+bad=0; compared=0
+for i in allidx:
+    hs={m[i] for m in maps if i in m}
+    if sum(1 for m in maps if i in m)>=2: compared+=1
+    if len(hs)>1: bad+=1
+print(len(maps), len(allidx), compared, bad)
+PY
+)
+  set -- $res
   viol=$(grep -l '"violation":{' $T/$prop-*.json | wc -l)
-  echo "$prop: $(ls $T/$prop-*.bin | wc -l) processes x $n run indices ($(($(stat -c %s $ref)/17)) records each), identical=$([ $fail = 0 ] && echo yes || echo NO), processes reporting a violation: $viol"
+  echo "$prop: $1 processes, $2 run indices, $3 executed by at least two processes, $4 with differing hashes; processes reporting a violation: $viol"
+  [ "$4" = 0 ] || fail=1
 done
 exit $fail
